@@ -17,7 +17,9 @@ LAOStarEventListener (harness/impl/c03_impl.py) ->
 When a clause fails the harness evaluates the property's clauses itself with exact rationals
 (policy reachability, exact policy evaluation, exact optimum) to exhibit a concrete failing clause.
 """
+import json
 import math
+import threading
 from fractions import Fraction as F
 import vlib
 from vlib import q, qlist, qmat, qten, nat, natlist, bmat, blist, coqlist, b
@@ -32,6 +34,7 @@ INFO = {
         "generated parameters (gamma, probabilities, rewards) reach the model exactly and msdm as nearest doubles; heuristic values are doubles rounded UP from the exact optimum and reach both sides as the same exact rationals",
         "the set C and the action played on it are computed by the harness from the returned policy queried at every state (closure is re-checked inside Coq)",
         "recording LAOStarEventListener subclass (public hook) snapshots the explicit graph after each main-loop iteration",
+        "family 'large' (~1100 states, default constructor arguments) is judged by the Python exact oracle only (convergence flag, optimum by exact backward induction, exact policy return, closure/consistency in Python); the Coq certificate is not evaluated at that size",
         "undiscounted case: the optimum is the harness' exact table (a fixed point of the optimality operator, confirmed in Coq); its uniqueness is proved only for gamma < 1",
     ],
     "assumptions": ["states are the integers 0..n-1 and actions 0..nA-1 of the generated MDP (LAO* never builds state_list)"],
@@ -122,29 +125,184 @@ def gen_sparse(rng, nmax, gamma):
             "absorbing": absorbing, "init": init, "gamma": gamma or rng.choice(gen_mdp.GAMMAS_DISC)}
 
 
-def gen_case(rng, tier):
-    nmax = 7 if tier == "quick" else 10
-    gamma = "1" if rng.random() < .3 else None
-    sparse = rng.random() < .4
-    if sparse:
-        m = gen_sparse(rng, 13 if tier == "quick" else 16, gamma)
-    else:
-        m = gen_mdp.gen_mdp(rng, nmax=nmax, amax=3, gamma=gamma, proper=(gamma == "1"),
-                            min_states=rng.choice([1, 2, 3, 4]))
+def perturb(rng, m, nonpos):
+    """MDP with the SAME state/action labels, action sets, absorbing flags, successor supports and
+    initial distribution as m, but re-drawn probabilities and rewards (properness is preserved:
+    supports do not change)"""
+    b = json.loads(json.dumps(m))
+    b["trans"], b["reward"] = {}, {}
+    for key, row in m["trans"].items():
+        s, a = map(int, key.split(","))
+        pos = [ns for ns, p in row if F(p) > 0]
+        zero = [ns for ns, p in row if F(p) == 0]
+        if m["absorbing"][s] or len(pos) > 7:
+            b["trans"][key] = [list(x) for x in row]
+            for ns in pos:
+                k3 = "%d,%d,%d" % (s, a, ns)
+                if k3 in m["reward"]:
+                    b["reward"][k3] = m["reward"][k3]
+            continue
+        ps = gen_mdp._split_prob(rng, len(pos), denom=8)
+        rng.shuffle(ps)
+        b["trans"][key] = [[ns, str(p)] for ns, p in zip(pos, ps)] + [[ns, "0"] for ns in zero]
+        for ns in pos:
+            r = F(rng.randint(-12, 0 if nonpos else 12), rng.choice([1, 2, 4]))
+            if r != 0:
+                b["reward"]["%d,%d,%d" % (s, a, ns)] = str(r)
+    return b
+
+
+def gen_neartie(rng):
+    """near-tie + long return time: a chain of k states, each with two actions that have IDENTICAL
+    transitions (stay with probability 1 - 2^-10, move on with 2^-10) and per-step rewards that
+    differ by delta in [2^-22, 2^-21]; the Q gap (delta, about 3e-7) is far above the 10-decimal
+    rounding of laostar.py's arg-max but choosing the worse action loses delta * ~1024 (2.4e-4 ..
+    4.9e-4) of return.  All numbers are dyadic (exact doubles).  Which action id is the better one,
+    a sub-1e-3 reward offset (position of the gap relative to coarser rounding grids), an optional
+    clearly worse third action, gamma in {1, 1 - 2^-10, 1 - 2^-12}."""
+    k = rng.choice([1, 2, 2, 3])
+    n = k + 2
+    nA = rng.choice([2, 2, 3])
+    goal = n - 1
+    stay = F(1023, 1024)
+    actions, trans, reward = [[0]], {"0,0": [[1, "1"]]}, {"0,0,1": str(F(-rng.randint(0, 2), 4))}
+    if reward["0,0,1"] == "0":
+        del reward["0,0,1"]
+    for t in range(1, k + 1):
+        good = rng.randrange(2)
+        acts = [0, 1] + ([2] if nA == 3 and rng.random() < .6 else [])
+        actions.append(acts)
+        r0 = -(F(rng.randint(1, 3), 2**10) + F(rng.randrange(2**14), 2**24))
+        delta = F(rng.randint(4, 8), 2**24)
+        for a in acts:
+            row = [[t, str(stay)], [t + 1, str(1 - stay)]]
+            rng.shuffle(row)
+            trans["%d,%d" % (t, a)] = row
+            r = r0 if a == good else (r0 - delta if a == 1 - good else r0 - F(1, 4))
+            for ns, p in row:
+                reward["%d,%d,%d" % (t, a, ns)] = str(r)
+    actions.append([0])
+    trans["%d,0" % goal] = [[goal, "1"]]
+    absorbing = [False] * n
+    absorbing[goal] = True
+    init = [[0, "1"]] if rng.random() < .5 else [[1, "1"]]
+    return {"n": n, "nA": nA, "actions": actions, "trans": trans, "reward": reward, "absorbing": absorbing,
+            "init": init, "gamma": rng.choice(["1", "1", "1023/1024", "4095/4096"])}
+
+
+def gen_large(rng, K):
+    """K-way stochastic dispatch (acyclic): start -> uniformly one of K states -> (hub ->) goal.  The
+    optimal closed policy covers K + 2 or K + 3 states and LAO* expands one tip per iteration, so
+    planning needs more than K main-loop iterations: run with the DEFAULT constructor budget."""
+    hub = rng.random() < .5
+    n = K + 2 + (1 if hub else 0)
+    goal = n - 1
+    nA = 2
+    actions = [[0]] + [[0, 1] if rng.random() < .7 else [rng.randrange(2)] for _ in range(K)]
+    trans = {"0,0": [[i, str(F(1, K))] for i in range(1, K + 1)]}
+    reward = {}
+    for i in range(1, K + 1):
+        reward["0,0,%d" % i] = "-1"
+        for a in actions[i]:
+            if hub and rng.random() < .3:
+                trans["%d,%d" % (i, a)] = [[K + 1, "1/2"], [goal, "1/2"]]
+            else:
+                trans["%d,%d" % (i, a)] = [[goal, "1"]]
+            for ns, p in trans["%d,%d" % (i, a)]:
+                reward["%d,%d,%d" % (i, a, ns)] = str(F(-rng.randint(1, 12), 4))
+    if hub:
+        actions.append([0, 1])
+        for a in (0, 1):
+            trans["%d,%d" % (K + 1, a)] = [[goal, "1"]]
+            reward["%d,%d,%d" % (K + 1, a, goal)] = str(F(-rng.randint(1, 8), 4))
+    actions.append([0])
+    trans["%d,0" % goal] = [[goal, "1"]]
+    absorbing = [False] * n
+    absorbing[goal] = True
+    return {"n": n, "nA": nA, "actions": actions, "trans": trans, "reward": reward, "absorbing": absorbing,
+            "init": [[0, "1"]], "gamma": rng.choice(["1", "19/20", "9/10"])}
+
+
+def vstar_dag(m):
+    """exact optimal values of an ACYCLIC MDP (self-loops only at absorbing states) by memoised
+    backward recursion; used for the large family where Gaussian elimination on Fractions is too slow"""
+    g = F(m["gamma"])
+    memo = {}
+
+    def val(s):
+        if s in memo:
+            return memo[s]
+        if m["absorbing"][s]:
+            memo[s] = F(0)
+            return memo[s]
+        memo[s] = max(qsa(s, a) for a in m["actions"][s])
+        return memo[s]
+
+    def qsa(s, a):
+        return sum(F(p) * (F(m["reward"].get("%d,%d,%d" % (s, a, ns), "0")) + g * val(ns))
+                   for ns, p in m["trans"]["%d,%d" % (s, a)] if F(p) > 0)
+    import sys
+    sys.setrecursionlimit(10000)
+    return [val(s) for s in range(m["n"])], qsa
+
+
+def vstar_of(m, family):
+    if family == "large":
+        return vstar_dag(m)[0]
     n, nA, P, R, av, absf, ini, g, masked = prep(m)
-    Vs = c01.exact_vstar(P, R, av, masked, g)
-    kind = rng.choice(["const", "exact", "slack"] + (["exact", "slack"] if sparse else []))
+    return c01.exact_vstar(P, R, av, masked, g)
+
+
+def gen_case(rng, tier, family=None):
+    """a case = ONE planner object (heuristic, seed, flags) and the list of MDPs it plans on in turn"""
+    family = family or "random"
+    shape = family
+    if family == "neartie":
+        plans = [gen_neartie(rng)]
+    elif family == "large":
+        plans = [gen_large(rng, rng.randint(1040, 1120))]
+    else:
+        nmax = 7 if tier == "quick" else 10
+        gamma = "1" if rng.random() < .3 else None
+        sparse = rng.random() < .4
+        shape = "sparse" if sparse else "dense"
+        if sparse:
+            m = gen_sparse(rng, 13 if tier == "quick" else 16, gamma)
+        else:
+            m = gen_mdp.gen_mdp(rng, nmax=nmax, amax=3, gamma=gamma, proper=(gamma == "1"),
+                                min_states=rng.choice([1, 2, 3, 4]))
+        plans = [m]
+        if rng.random() < .4:
+            # the same planner object is reused on an MDP with the same labels but different dynamics
+            nonpos = F(m["gamma"]) == 1 or sparse or not any(F(r) > 0 for r in m["reward"].values())
+            plans.append(perturb(rng, m, nonpos))
+            if rng.random() < .6:
+                plans.append(m)
+    Vall = [vstar_of(m, family) for m in plans]
+    n = plans[0]["n"]
+    Vmax = [max(V[s] for V in Vall) for s in range(n)]
+    kind = rng.choice(["const", "exact", "slack"] + (["exact", "slack"] if shape in ("sparse", "neartie") else []))
     if kind == "const":
-        c = max([F(0)] + Vs) + rng.choice([0, 1, 5])
+        c = max([F(0)] + Vmax) + rng.choice([0, 1, 5])
         h = [c] * n
     elif kind == "exact":
-        h = list(Vs)
+        h = list(Vmax)
     else:
-        h = [v + rng.choice([F(0), F(1, 4), F(1), F(3)]) for v in Vs]
+        h = [v + rng.choice([F(0), F(1, 4), F(1), F(3)]) for v in Vmax]
     hf = [up(x) for x in h]
-    return {"mdp": m, "shape": "sparse" if sparse else "dense", "h": [list(x.as_integer_ratio()) for x in hf], "hkind": kind,
+    return {"family": family, "shape": shape,
+            "plans": [{"mdp": m, "vstar": [str(v) for v in V]} for m, V in zip(plans, Vall)],
+            "h": [list(x.as_integer_ratio()) for x in hf], "hkind": kind,
             "seed": rng.randrange(4), "rao": rng.random() < .5, "rno": rng.random() < .5,
-            "vstar": [str(v) for v in Vs]}
+            "default_args": family == "large"}
+
+
+def view(case, k):
+    """the single-plan case the per-result functions below work on"""
+    v = {key: val for key, val in case.items() if key != "plans"}
+    v["mdp"], v["vstar"] = case["plans"][k]["mdp"], case["plans"][k]["vstar"]
+    v["plan_index"] = k
+    return v
 
 
 # ---------------------------------------------------------------------------
@@ -268,12 +426,94 @@ def search_failing(case, res):
     return None
 
 
+def judge_large(case, res):
+    """large family (too big for the Coq certificate): the property's clauses AND the certificate's
+    structural clauses evaluated in Python with exact rationals; the MDP is acyclic"""
+    m = case["mdp"]
+    n, nA, g = m["n"], m["nA"], F(m["gamma"])
+    Vs = [F(x) for x in case["vstar"]]
+    hq = [vlib.frac(x) for x in case["h"]]
+    scale = max([F(1)] + [abs(x) for x in Vs] + [abs(x) for x in hq])
+    tiny = F(1, 10**8) * scale
+    rho = F(2, 10**10) + F(1, 10**12) * scale
+    if not res["converged"]:
+        return {"clause": "LAO* does not report convergence", "iterations": res.get("iterations"),
+                "tips": (res.get("tips") or [])[:5]}
+    held = {}
+    for s, v in res["value_map"]:
+        if isinstance(v, str) or vlib.frac(v) < Vs[s] - tiny:
+            return {"clause": "value held for an explored state is below its optimal value",
+                    "state": s, "held": str(v), "optimal": str(Vs[s])}
+        held[s] = vlib.frac(v)
+    Pi = []
+    for s in range(n):
+        row = res["policy"][s]
+        if isinstance(row, dict):
+            Pi.append(None)
+            continue
+        d = {}
+        for a, p in row:
+            if isinstance(p, str) or (vlib.frac(p) != 0 and a not in m["actions"][s]):
+                return {"clause": "returned policy picks an action that is not available", "state": s, "action": a}
+            if vlib.frac(p) > 0:
+                d[a] = d.get(a, F(0)) + vlib.frac(p)
+        Pi.append(d)
+    succ = lambda s, a: [(ns, F(p)) for ns, p in m["trans"]["%d,%d" % (s, a)] if F(p) > 0]
+    rw = lambda s, a, ns: F(m["reward"].get("%d,%d,%d" % (s, a, ns), "0"))
+    C = set(s for s, p in m["init"] if F(p) > 0)
+    fr = sorted(C)
+    while fr:
+        s = fr.pop()
+        if Pi[s] is None:
+            return {"clause": "returned policy is undefined on a state it reaches", "state": s}
+        if abs(sum(Pi[s].values()) - 1) > F(1, 10**9):
+            return {"clause": "returned policy is not a distribution on a state it reaches", "state": s}
+        if m["absorbing"][s]:
+            continue
+        for a in Pi[s]:
+            for ns, p in succ(s, a):
+                if ns not in C:
+                    C.add(ns)
+                    fr.append(ns)
+    memo = {}
+
+    def vpi(s):
+        if s not in memo:
+            memo[s] = F(0) if m["absorbing"][s] else sum(
+                pa * sum(p * (rw(s, a, ns) + g * vpi(ns)) for ns, p in succ(s, a)) for a, pa in Pi[s].items())
+        return memo[s]
+    opt = sum(F(p) * Vs[s] for s, p in m["init"])
+    ret = sum(F(p) * vpi(s) for s, p in m["init"] if F(p) > 0)
+    if abs(ret - opt) > tiny:
+        return {"clause": "exactly evaluated return of the returned policy is not optimal",
+                "return": str(ret), "optimal": str(opt)}
+    iv = res["initial_value"]
+    if isinstance(iv, str) or abs(vlib.frac(iv) - opt) > tiny:
+        return {"clause": "initial value differs from the optimal value of the initial distribution",
+                "initial_value": str(iv), "optimal": str(opt)}
+    # certificate clauses c_closed / c_det / c_cons, in Python
+    for s in C:
+        if s not in held or len(Pi[s]) != 1 or list(Pi[s].values()) != [1]:
+            return {"clause": "certificate (python): policy not a point mass inside the explicit graph on C", "state": s,
+                    "found": False}
+        a = next(iter(Pi[s]))
+        look = F(0) if m["absorbing"][s] else sum(
+            p * (rw(s, a, ns) + g * (F(0) if m["absorbing"][ns] else held.get(ns, F(0)))) for ns, p in succ(s, a))
+        if abs(held[s] - look) > rho:
+            return {"clause": "certificate (python): held value not consistent with the policy on C", "state": s,
+                    "found": False}
+    return None
+
+
 def terms_for(case, res):
     n, nA, P, R, av, absf, ini, g, masked = prep(case["mdp"])
     Vs = [F(x) for x in case["vstar"]]
     hq = [vlib.frac(x) for x in case["h"]]
     scale = max([F(1)] + [abs(x) for x in Vs] + [abs(x) for x in hq])
-    rho = F(1, 10**9) * scale
+    # rho models the 10-decimal rounding of the arg-max in _policy_iteration (two actions whose rounded
+    # values agree differ by < 1e-10) plus floating-point noise of the linear solve
+    rho = F(2, 10**10) + F(1, 10**12) * scale
+    ups = F(1, 10**9) * scale
     mt = " ".join([nat(n), nat(nA), qten(P), qten(R), bmat(av), blist(absf), qlist(ini), q(g)])
     held = {s: vlib.frac(v) for s, v in res["value_map"]}
     ex = [s in held for s in range(n)]
@@ -294,7 +534,7 @@ def terms_for(case, res):
     conv = bool(res["converged"]) and not alien
     lao = " ".join([b(conv), blist(ex), qlist(V), blist([s in C for s in range(n)]), natlist(pol),
                     qmat(PiQ), q(res["initial_value"])])
-    tl = "(mkLtols %s %s %s %s)" % (q(rho), q(rho), q(rho), q(F(1, 10**12)))
+    tl = "(mkLtols %s %s %s %s)" % (q(rho), q(ups), q(ups), q(F(1, 10**12)))
     t_chk = "chk %s %s %s %s %s" % (mt, lao, tl, qlist(Vs), qlist(N))
     # trace
     steps = []
@@ -336,81 +576,154 @@ def terms_for(case, res):
 
 def run(ctx):
     tier = ctx.tier
-    ncases = 90 if tier == "quick" else 900
+    nrand, ntie, nlarge = (60, 14, 1) if tier == "quick" else (600, 140, 3)
     if ctx.replay_case:
         cases = [ctx.replay_case["detail"]["case"]]
     else:
-        cases = [gen_case(ctx.rng, tier) for _ in range(ncases)]
-    impl = ctx.impl("c03_impl.py", {"cases": cases}, shards=min(ctx.jobs, 4 if tier == "quick" else 8))["results"]
+        cases = ([gen_case(ctx.rng, tier) for _ in range(nrand)] +
+                 [gen_case(ctx.rng, tier, "neartie") for _ in range(ntie)] +
+                 [gen_case(ctx.rng, tier, "large") for _ in range(nlarge)])
+    small = [i for i, c in enumerate(cases) if c.get("family") != "large"]
+    large = [i for i, c in enumerate(cases) if c.get("family") == "large"]
+    impl = [None] * len(cases)
+    box = {}
+
+    def run_large():
+        try:
+            box["res"] = ctx.impl("c03_impl.py", {"cases": [cases[i] for i in large]}, shards=len(large))["results"]
+        except Exception as e:     # reported below
+            box["err"] = repr(e)
+    th = None
+    if large:
+        th = threading.Thread(target=run_large)
+        th.start()
+    if small:
+        rs = ctx.impl("c03_impl.py", {"cases": [cases[i] for i in small]},
+                      shards=min(ctx.jobs, 4 if tier == "quick" else 8))["results"]
+        for i, r in zip(small, rs):
+            impl[i] = r
     terms, meta = [], []
     feats, infos = {}, []
-    for i, (case, res) in enumerate(zip(cases, impl)):
+    nplans = nreuse = 0
+    for i in small:
+        case, res = cases[i], impl[i]
         if "error" in res:
-            ctx.violation("C03:laostar-raises:" + res["error"].split(":")[0],
-                          {"case": case, "error": res["error"], "trace": res.get("trace")}, found=True)
+            ctx.violation("C03:laostar-raises:" + res["error"].split(":")[0], {"case": case, "error": res["error"]}, found=True)
             continue
-        t_chk, t_run, t_anc, info = terms_for(case, res)
-        infos.append(info)
-        terms += [t_chk, t_run, t_anc]
-        meta += [("chk", i), ("run", i), ("anc", i)]
-        f = gen_mdp.features(case["mdp"])
-        f["absorbing_initial"] = any(case["mdp"]["absorbing"][s] for s, p in case["mdp"]["init"] if F(p) > 0)
-        f["h_" + case["hkind"]] = True
-        f["shape_" + case.get("shape", "dense")] = True
-        f["rao"], f["rno"] = case["rao"], case["rno"]
-        f["seed_%d" % case["seed"]] = True
-        for k, v in f.items():
-            if isinstance(v, bool):
-                feats[k] = feats.get(k, 0) + int(v)
+        for k, rk in enumerate(res["plans"]):
+            cv = view(case, k)
+            nplans += 1
+            nreuse += int(k > 0)
+            if "error" in rk:
+                ctx.violation("C03:laostar-raises:" + rk["error"].split(":")[0],
+                              {"case": case, "plan_index": k, "error": rk["error"], "trace": rk.get("trace_back")}, found=True)
+                continue
+            t_chk, t_run, t_anc, info = terms_for(cv, rk)
+            infos.append(info)
+            terms += [t_chk, t_run, t_anc]
+            meta += [("chk", i, k), ("run", i, k), ("anc", i, k)]
+            f = gen_mdp.features(cv["mdp"])
+            f["absorbing_initial"] = any(cv["mdp"]["absorbing"][s] for s, p in cv["mdp"]["init"] if F(p) > 0)
+            f["h_" + case["hkind"]] = True
+            f["shape_" + case.get("shape", "dense")] = True
+            f["rao"], f["rno"] = case["rao"], case["rno"]
+            f["seed_%d" % case["seed"]] = True
+            f["planner_object_reused"] = k > 0
+            for kk, v in f.items():
+                if isinstance(v, bool):
+                    feats[kk] = feats.get(kk, 0) + int(v)
     vals = ctx.coq(PRE, terms, shard=12 if tier == "quick" else 36)
     nchk = nrun = nanc = anc_drift = 0
     anc_bad = []
     distinct = set()
     reported = set()
-    for (kind, i), v in zip(meta, vals):
-        case, res = cases[i], impl[i]
+    for (kind, i, k), v in zip(meta, vals):
+        case, res = cases[i], impl[i]["plans"][k]
+        cv = view(case, k)
         if isinstance(v, vlib.CoqError):
-            ctx.violation("C03:coq-evaluation-failed", {"case": case, "kind": kind, "error": str(v)[:800]}, found=False)
+            ctx.violation("C03:coq-evaluation-failed", {"case": case, "plan_index": k, "kind": kind, "error": str(v)[:800]}, found=False)
             continue
         if kind == "anc":
             nanc += len(v)
             if not all(v):
                 anc_drift += 1     # mirror of update_ancestors_of differs; run_ok (proved guard) decides
-                if i not in anc_bad:
-                    anc_bad.append(i)
+                if (i, k) not in anc_bad:
+                    anc_bad.append((i, k))
             continue
         names = CLAUSES if kind == "chk" else RUN_CLAUSES
         if not isinstance(v, list) or len(v) != len(names):
-            ctx.violation("C03:coq-evaluation-failed", {"case": case, "kind": kind, "error": "unexpected value %r" % (v,)}, found=False)
+            ctx.violation("C03:coq-evaluation-failed", {"case": case, "plan_index": k, "kind": kind, "error": "unexpected value %r" % (v,)}, found=False)
             continue
         failed = [c for c, okv in zip(names, v) if not okv]
         if kind == "chk":
             nchk += 1
             if len(res["nodes"]) > 1:
-                distinct.add(vlib.structural_hash([case["mdp"], case["h"], case["seed"], case["rao"], case["rno"]]))
+                distinct.add(vlib.structural_hash([cv["mdp"], case["h"], case["seed"], case["rao"], case["rno"], k]))
         else:
             nrun += 1
-        if failed and i not in reported:
-            reported.add(i)
-            why = search_failing(case, res)
-            detail = {"case": case, "failed_clauses": failed, "checker": kind,
-                      "impl": {k: res[k] for k in ("converged", "iterations", "initial_value", "value_map",
-                                                   "solution_states", "tips", "policy")}}
+        if failed and (i, k) not in reported:
+            reported.add((i, k))
+            why = search_failing(cv, res)
+            detail = {"case": case, "plan_index": k, "failed_clauses": failed, "checker": kind,
+                      "impl": {key: res[key] for key in ("converged", "iterations", "initial_value", "value_map",
+                                                         "solution_states", "tips", "policy")}}
+            tag = "reused-planner:" if k > 0 else ""
             if why:
                 detail["failing_clause"] = why
-                ctx.violation("C03:" + why["clause"], detail, found=True)
+                ctx.violation("C03:" + tag + why["clause"], detail, found=True)
             else:
                 detail["correspondence"] = ("model/LAOStar.v:%s (theorems props/C03.v) rejects the implementation's %s"
                                             % ("c03_check" if kind == "chk" else "c03_run_raw", "result" if kind == "chk" else "recorded run"))
-                ctx.violation("C03:%s-rejects:%s" % ("certificate" if kind == "chk" else "run", "+".join(failed)), detail, found=False)
+                ctx.violation("C03:%s%s-rejects:%s" % (tag, "certificate" if kind == "chk" else "run", "+".join(failed)), detail, found=False)
+    # large family: judged in Python only (see INFO / coverage)
+    nlarge_done, large_info = 0, []
+    if th:
+        th.join()
+        if "err" in box:
+            ctx.violation("C03:large:impl-runner-failed", {"case": {"family": "large"}, "error": box["err"][:1500]}, found=False)
+        else:
+            for i, r in zip(large, box["res"]):
+                case = cases[i]
+                slim = {key: val for key, val in case.items()}
+                if "error" in r:
+                    ctx.violation("C03:laostar-raises:" + r["error"].split(":")[0], {"case": slim, "error": r["error"]}, found=True)
+                    continue
+                for k, rk in enumerate(r["plans"]):
+                    nlarge_done += 1
+                    if "error" in rk:
+                        ctx.violation("C03:large:laostar-raises:" + rk["error"].split(":")[0],
+                                      {"case": slim, "plan_index": k, "error": rk["error"]}, found=True)
+                        continue
+                    why = judge_large(view(case, k), rk)
+                    large_info.append({"states": case["plans"][k]["mdp"]["n"], "iterations": rk["iterations"],
+                                       "converged": rk["converged"], "solution_states": len(rk["solution_states"])})
+                    if why:
+                        found = why.pop("found", True)
+                        ctx.violation("C03:large:" + why["clause"],
+                                      {"case": slim, "plan_index": k, "failing_clause": why,
+                                       "impl": {key: rk[key] for key in ("converged", "iterations", "initial_value", "tips")}},
+                                      found=found)
+    sample = None
+    if cases:
+        c0 = cases[small[0]] if small else None
+        if c0 is not None and "plans" in impl[small[0]]:
+            r0 = impl[small[0]]["plans"][0]
+            sample = {"case": c0, "impl": {key: r0.get(key) for key in ("converged", "initial_value", "value_map", "policy")}}
     ctx.coverage.update({
-        "evaluations": nchk + nrun + nanc,
+        "evaluations": nchk + nrun + nanc + nlarge_done,
         "distinct_nontrivial": len(distinct),
-        "rule": "MDPs from harness/gen_mdp.py (1..%d states, 1..3 actions, state-dependent action sets, k/8 probabilities, zero entries, duplicate rows, explicit/implicit absorbing states incl. absorbing initial states, multi-state initial distributions; gamma in {1/2,3/4,7/8,9/10,19/20}, or gamma = 1 with a proper MDP); heuristic in {constant upper bound, exact optimum rounded up to a double, optimum + per-state slack}; seed 0..3; randomize_action_order / randomize_nextstate_order on/off; distinct = structural hash of (MDP, heuristic, seed, flags); non-trivial = explicit graph with more than one node" % (7 if tier == "quick" else 10),
-        "samples": [{"case": cases[0], "impl": {k: impl[0].get(k) for k in ("converged", "initial_value", "value_map", "policy")}}] if cases else [],
+        "rule": ("a case is ONE LAOStar object (heuristic, seed 0..3, randomize_action_order / randomize_nextstate_order on/off) and the list of MDPs it plans on in turn. "
+                 "family random: MDPs from harness/gen_mdp.py (1..%d states, 1..3 actions, state-dependent action sets, k/8 probabilities, zero entries, duplicate rows, explicit/implicit absorbing states incl. absorbing initial states, multi-state initial distributions; gamma in {1/2,3/4,7/8,9/10,19/20}, or gamma = 1 proper) or gen_sparse (6..%d states, forward-moving, side chains); in 40%% of them the same object then plans on a perturbed MDP with the same labels (re-drawn probabilities/rewards) and possibly on the first one again. "
+                 "family neartie: chains of states with two actions of identical transitions (self-loop 1 - 2^-10), per-step reward gap 2^-22..2^-21, both id orders, gamma in {1, 1-2^-10, 1-2^-12}. "
+                 "family large: ~1100-way stochastic dispatch planned with DEFAULT constructor arguments (iteration budget), judged in Python only (convergence flag, exact backward-induction optimum, exact policy return, closure/consistency) because the Coq certificate is too slow at that size. "
+                 "heuristic in {constant upper bound, exact optimum rounded up to a double, optimum + per-state slack} (admissible for every MDP of the case); distinct = structural hash of (MDP, heuristic, seed, flags, position in the plan list); non-trivial = explicit graph with more than one node" % ((7, 13) if tier == "quick" else (10, 16))),
+        "samples": [sample] if sample else [],
         "certificate_checks": nchk, "run_checks": nrun,
         "ancestor_mirror_evaluations": nanc, "ancestor_mirror_drift_cases": anc_drift,
         "main_loop_iterations_checked": sum(x["steps"] for x in infos),
+        "plans": nplans, "plans_on_reused_planner_object": nreuse,
+        "neartie_cases": sum(1 for c in cases if c.get("family") == "neartie"),
+        "large_python_only": large_info,
         "cases_with_unexplored_reachable_states": sum(1 for x in infos if x["pruned"]),
         "cases_C_smaller_than_explored": sum(1 for x in infos if x["nC"] < x["nExplored"]),
         "cases_solution_graph_differs_from_C": sum(1 for x in infos if not x["sol_eq_C"]),
